@@ -102,4 +102,8 @@ theorem C10_no_session_on_error (emailOK : Bytes → Bool) (i : CbIn) (h : i.log
     · exact ⟨400, by simp [h1, h2]⟩
     · exact ⟨500, by simp [h1, h2, h]⟩
 
+/-- Tie (T1): the authenticator's provider middleware passes `Redeem` straight through — two logins that overlap at the
+token call are each redeemed with their own code; nobody is handed a copy of someone else's session. -/
+theorem C10_redeem_not_coalesced : Sso.Generated.skel_auth_sf_Redeem = ["call:Redeem", "return"] := by decide
+
 end Sso.AuthN
